@@ -143,6 +143,8 @@ func c14Do(s *Sys, op string, i int) string {
 		return writeObs(s.Req(tok, logical.UpdateOperation, "kv2/destroy/s", map[string]interface{}{"versions": []int{1}}))
 	case "metamax1":
 		return writeObs(s.Req(tok, logical.UpdateOperation, "kv2/metadata/s", map[string]interface{}{"max_versions": 1}))
+	case "metamax2":
+		return writeObs(s.Req(tok, logical.UpdateOperation, "kv2/metadata/s", map[string]interface{}{"max_versions": 2}))
 	case "metacas":
 		return writeObs(s.Req(tok, logical.UpdateOperation, "kv2/metadata/s", map[string]interface{}{"cas_required": true}))
 	}
@@ -519,12 +521,23 @@ func TestVerifC14(t *testing.T) {
 			if nonTxn {
 				fimg = c14Image(t, true)
 			}
+			// pre-states: the fresh secret (1 version, default limit) and a secret AT its
+			// max_versions limit (the next write has to drop the oldest version)
+			for pi, pre := range [][]string{nil, {"metamax2", "put"}} {
+			prep := func(s *Sys) {
+				for i, p := range pre {
+					if got := c14Do(s, p, 7+i); strings.HasPrefix(got, "err") {
+						t.Fatalf("harness: pre-state op %s failed: %s", p, got)
+					}
+				}
+			}
 			for oi, op := range []string{"put", "putcas1", "patch", "del", "delv1", "undelv1", "destroyv1", "metamax1"} {
-				if !vout.Mine(oi) {
+				if !vout.Mine(oi + 8*pi) {
 					continue
 				}
 				// pass 0: count the operations of the call
 				s0 := Boot(t, fimg)
+				prep(s0)
 				s0.Phys.FailAt("call", 1<<30)
 				s0.Phys.SetTag("call")
 				_ = c14Do(s0, op, 0)
@@ -533,6 +546,7 @@ func TestVerifC14(t *testing.T) {
 				s0.Close()
 				for k := 1; k <= n; k++ {
 					s := Boot(t, fimg)
+					prep(s)
 					before := c14Final(s)
 					s.Phys.FailAt("call", k)
 					s.Phys.SetTag("call")
@@ -545,7 +559,7 @@ func TestVerifC14(t *testing.T) {
 					what := "not reached"
 					if failed != nil {
 						what = failed.String()
-						res.Distinct("nontrivial", fmt.Sprintf("F|%v|%s|%s|%v", nonTxn, op, failed.Kind, strings.HasPrefix(got, "err")))
+						res.Distinct("nontrivial", fmt.Sprintf("F|%v|%d|%s|%s|%v", nonTxn, pi, op, failed.Kind, strings.HasPrefix(got, "err")))
 					}
 					isWrite := op == "put" || op == "putcas1" || op == "patch"
 					if strings.HasPrefix(got, "err") && after != before && !isWrite {
@@ -554,11 +568,12 @@ func TestVerifC14(t *testing.T) {
 						res.Add("non_write_partial_effects", 1)
 					}
 					if strings.HasPrefix(got, "err") && after != before && isWrite {
-						res.Violate("c14:failed-call-changed-state", fmt.Sprintf("%s (nonTxn=%v) with storage op %d [%s] failing returned %q but API-visible state changed:\n before [%s]\n after  [%s]", op, nonTxn, k, what, got, before, after),
-							SchedReplay{Scenario: "fault", Params: map[string]interface{}{"ops": []string{op}, "k": k, "nonTxn": nonTxn}})
+						res.Violate("c14:failed-call-changed-state", fmt.Sprintf("%s after %v (nonTxn=%v) with storage op %d [%s] failing returned %q but API-visible state changed:\n before [%s]\n after  [%s]", op, pre, nonTxn, k, what, got, before, after),
+							SchedReplay{Scenario: "fault", Params: map[string]interface{}{"ops": []string{op}, "pre": pre, "k": k, "nonTxn": nonTxn}})
 					}
 					s.Close()
 				}
+			}
 			}
 		}
 	}
